@@ -28,7 +28,8 @@ var cssTokens = uniq(strings.Fields(`initial inherit unset none auto normal 0 1 
  local(arial) attr(x) counter(a) 1fr span auto-fill e-resize zoom-in table-cell list-item inline-block run-in contents sans-serif monospace cursive fantasy x-large 1.2 120% bolder lighter 700 ultra-condensed
  normal small-caption icon status-bar message-box lowercase full-width justify start end match-parent distribute inter-word inter-character sideways-right sideways use-glyph-orientation force-end allow-end
  words characters ruby all-small-caps petite-caps unicase titling-caps weight border-color 1s, ease, currentcolor invert fill-box stroke-box view-box luminance alpha add subtract intersect exclude multiply screen
- overlay darken lighten color-dodge color-burn hard-light soft-light difference exclusion hue saturation color luminosity`))
+ overlay darken lighten color-dodge color-burn hard-light soft-light difference exclusion hue saturation color luminosity
+ "'" '"' "‹" "›" "‘" "’" "“" "”" 12px/30px 1px/2em span 2 fill stroke nonzero evenodd`))
 
 var hostileFrags = []string{`url(javascript:alert(1))`, `url(data:text/html,x)`, `url(//evil)`, `url(ftp://x)`, `url(httpx://x)`, `url(httpjavascript:alert(1))`, `url(http://a\62)`, `expression(alert(1))`, `javascript:alert(1)`,
 	`data:text/html,x`, `\65`, `\`, `<`, `>`, `</style>`, `@import`, `<script>`, `@charset`, `url(x)`, `url('javascript:alert(1)')`, `url( javascript:x )`}
@@ -239,7 +240,7 @@ func c18Handler(prop string, tier string, r *Rec) c18Result {
 				try(s[:pos] + f + s[pos:])
 				try(s[:pos] + " " + f + " " + s[pos:])
 			}
-			for _, sep := range []string{", ", ",", " / ", ";", " "} {
+			for _, sep := range []string{", ", ",", " / ", "/", ";", " ", ":", "(", ")"} {
 				try(s + sep + f)
 				try(f + sep + s)
 			}
